@@ -742,7 +742,9 @@ pub fn print_pattern(out: &mut String, n: &Node, f: Flags) {
         Node::Group(_, name, b) => {
             out.push('(');
             if let Some(n) = name {
-                out.push_str(&format!("?<{}>", n));
+                out.push_str("?<");
+                print_name(out, n);
+                out.push('>');
             }
             print_pattern(out, b, f);
             out.push(')');
@@ -774,7 +776,11 @@ pub fn print_pattern(out: &mut String, n: &Node, f: Flags) {
             out.push(')');
         }
         Node::Bref(k) => out.push_str(&format!("\\{}", k)),
-        Node::Nref(n) => out.push_str(&format!("\\k<{}>", n)),
+        Node::Nref(n) => {
+            out.push_str("\\k<");
+            print_name(out, n);
+            out.push('>');
+        }
         Node::Quant { min, max, greedy, body } => {
             // the body must be a single atom
             match **body {
@@ -827,6 +833,19 @@ fn print_term(out: &mut String, n: &Node, f: Flags) {
             out.push_str(&format!("\\x{:02x}", c));
         }
         _ => print_pattern(out, n, f),
+    }
+}
+
+/// A group name, some of its characters spelled as `\uHHHH` / `\u{H}` (both are allowed in a
+/// GroupName in every mode; the choice is a function of position and character).
+fn print_name(out: &mut String, name: &str) {
+    for c in name.chars() {
+        let h = ((c as u32).wrapping_mul(2654435761).wrapping_add((out.len() as u32).wrapping_mul(40503)) >> 5) % 8;
+        match h {
+            0 if (c as u32) < 0x10000 => out.push_str(&format!("\\u{:04X}", c as u32)),
+            1 => out.push_str(&format!("\\u{{{:x}}}", c as u32)),
+            _ => out.push(c),
+        }
     }
 }
 
